@@ -20,9 +20,8 @@ from .. import impl_integrator as I
 from ..core import Check, VERIF
 
 THEOREMS = {n: "Props.C07" for n in [
-    "C07_no_double_handout", "C07_push_only_fresh", "C07_pending_leaves_only_by_tell",
-    "C07_rejects_foreign", "C07_partition", "C07_partition_stays",
-    "C07_no_internal_error", "C07_no_internal_error_refuted_unfixed"]}
+    "C07_no_double_handout", "C07_rejects_foreign", "C07_no_internal_error",
+    "C07_cover_is_partition", "C07_partition_partial", "C07_no_internal_error_refuted_unfixed"]}
 
 PREAMBLE_HEAD = """From Coq Require Import PrimFloat List. Import ListNotations.
 From AV Require Import Base.Prelude Base.FloatUtil Model.Integrator Run.IntegratorRun.
